@@ -178,7 +178,8 @@ func (st *pathState) unsupported(msg string) {
 
 func (st *pathState) engineError(msg string) {
 	if st.curFrame != nil {
-		msg = "target stack: " + strings.Join(st.curFrame.stack(), " < ") + "\n" + msg
+		first, rest, _ := strings.Cut(msg, "\n")
+		msg = first + " | target stack: " + strings.Join(st.curFrame.stack(), " < ") + "\n" + rest
 	}
 	if !st.outcomeSet {
 		st.outcomeSet = true
